@@ -449,16 +449,52 @@ def run(ctx):
             flush()     # keep memory bounded in long runs
         bundled = si < len(fam) or rng.random() < 0.4
         info = fam[si % len(fam)] if bundled else schemas.random_schema(rng)
+        aimed_ic = si >= len(fam) and (si - len(fam)) % 5 == 2
+        if aimed_ic:
+            # aimed: inline nodes *with content* whose allowed marks differ from their textblock's (no bundled schema has one);
+            # only the mark operations are run here (the retyping operations meet the Fitter, whose behaviour on inline nodes
+            # with content is outside the properties)
+            bundled, info = False, schemas.inline_container_schema(rng)
+            ctx.count("aimed_inline_container_schemas")
         schema = info.schema
         ctx.driver.add_schema(info)
-        docs = [gen.gen_doc(rng, schema, budget=rng.choice([6, 12, 25])) for _ in range(ctx.budget(5, 10))]
+        docs = [gen.gen_doc(rng, schema, budget=rng.choice([6, 12, 25])) for _ in range(ctx.budget(5, 10) - (4 if aimed_ic else 0))]
         marky = [x for x in (gen.gen_marky_doc(rng, schema) for _ in range(ctx.budget(2, 4))) if x is not None]
         docs = docs + marky
         planned = []
+        kinds_here = [k_ for k_ in kinds if k_ not in ("set_block_type", "set_node_markup")] if aimed_ic else kinds
         for d in docs:
             for _ in range(ctx.budget(12, 30)):
                 # documents made of varied mark runs get mostly range mark operations
-                planned.append((d,) + tuple(ops.plan_op(rng, info, d, docs, ["add_mark", "remove_mark"] if any(d is x for x in marky) and rng.random() < 0.8 else kinds)))
+                planned.append((d,) + tuple(ops.plan_op(rng, info, d, docs, ["add_mark", "remove_mark"] if any(d is x for x in marky) and rng.random() < 0.8 else kinds_here)))
+        if gen.inline_containers(schema):
+            # aimed: mark runs that continue from the text in front of an inline node with content over the node itself into
+            # the text inside it and on behind it; ranges that cover the node, cut into it, or lie inside it
+            for _ in range(ctx.budget(5, 12) if aimed_ic else ctx.budget(1, 3)):
+                case = gen.gen_inline_container_case(rng, schema)
+                if case is None:
+                    break
+                d0, ranges0, marks0 = case
+                for _k in range(4):
+                    (f0, t0), m0 = rng.choice(ranges0[:2] if rng.random() < 0.4 else ranges0), (marks0[0] if rng.random() < 0.5 else rng.choice(marks0))
+                    r0 = rng.random()
+                    if r0 < 0.4:
+                        planned.append((d0, "add_mark", [f0, t0, m0], (lambda f0, t0, m0: lambda tr: tr.add_mark(f0, t0, m0))(f0, t0, m0)))
+                    else:
+                        w0 = m0 if r0 < 0.7 else (m0.type if r0 < 0.9 else None)
+                        planned.append((d0, "remove_mark", [f0, t0, w0], (lambda f0, t0, w0: lambda tr: tr.remove_mark(f0, t0, w0))(f0, t0, w0)))
+                    ctx.count("aimed_inline_container_mark_ops")
+        for _ in range(ctx.budget(1, 3)):
+            # aimed: adjacent text nodes carrying marks of one type with different attributes; a further mark of that type
+            # added over the run, the type / one of the marks / everything removed from it
+            case = gen.gen_same_type_run_case(rng, schema)
+            if case is None:
+                break
+            d0, f0, t0, m0, present0 = case
+            planned.append((d0, "add_mark", [f0, t0, m0], (lambda f0, t0, m0: lambda tr: tr.add_mark(f0, t0, m0))(f0, t0, m0)))
+            w0 = rng.choice([m0.type, None, rng.choice(present0)])
+            planned.append((d0, "remove_mark", [f0, t0, w0], (lambda f0, t0, w0: lambda tr: tr.remove_mark(f0, t0, w0))(f0, t0, w0)))
+            ctx.count("aimed_same_type_run_cases")
         for _ in range(ctx.budget(4, 10)):
             # aimed: add a mark over nodes that carry a mark it excludes, some of which cannot take it
             case = gen.gen_exclusion_case(rng, schema)
@@ -498,7 +534,7 @@ def run(ctx):
                 planned.append((d0, "set_block_type", [0, d0.content.size, t0, a0],
                                 (lambda e0, t0, a0: lambda tr: tr.set_block_type(0, e0, t0, a0))(d0.content.size, t0, a0)))
                 ctx.count("aimed_needy_retype_cases")
-        for d in docs:
+        for d in ([] if aimed_ic else docs):
             # clear_incompatible called directly on any node and any type (the operation is public; set_block_type only
             # ever calls it on textblocks): tied like the other planners, and through `retypedChildren`
             # (addressed at a *text* node the operation works at `pos + 1`, one unit into the text: where that falls between the
